@@ -184,7 +184,7 @@ Definition get_node_state (h : host) (is_cascade : bool) : prog node_state :=
       g <- gtid_executed 2173 h ;;
       let '(gs, e6) := g in
       match e6 with
-      | Some _ => gns_fail h (mk true None None None)
+      | Some _ => gns_fail h (mk true (Some []) None None)       (* MasterState is allocated before the query *)
       | None =>
           ss <- semi_sync_status 2180 h ;;
           let '(semi, e7) := ss in
